@@ -22,17 +22,19 @@ deriving Repr, Inhabited
 
 def xidOf (hp : Heap) (a : Nat) : Option Int := (hp[a]?).bind (·.xid)
 
-/-- `ref.xmiID in all_fs` -/
-def seenId (allFs : List (Int × Nat)) (x : Option Int) : Bool :=
+/-- `all_fs.get(ref.xmiID) is ref`: the structure at address `a`, carrying id `x`, was already collected -/
+def seenId (allFs : List (Int × Nat)) (x : Option Int) (a : Nat) : Bool :=
   match x with
   | none => false
-  | some i => allFs.any (fun p => p.1 == i)
+  | some i => match allFs.find? (fun p => p.1 == i) with
+    | some p => p.2 == a
+    | none => false
 
 /-- `for ref in elements: if not ref or ref.xmiID in all_fs: continue; openlist.append(ref)` -/
 def refsToPush (hp : Heap) (allFs : List (Int × Nat)) (refs : List (Option Nat)) : List Nat :=
   refs.filterMap (fun r => match r with
     | none => none
-    | some a => if seenId allFs (xidOf hp a) then none else some a)
+    | some a => if seenId allFs (xidOf hp a) a then none else some a)
 
 def slot (hp : Heap) (a : Nat) (name : String) : Option Val := (hp[a]?).bind (fun o => alistGet? o.slots name)
 
@@ -49,7 +51,7 @@ def walkList (hp : Heap) (allFs : List (Int × Nat)) : Nat → Val → Option (L
       | none => none
       | some (ps, n) =>
         let p := match hd with
-          | .ref t => if seenId allFs (xidOf hp t) then [] else [t]
+          | .ref t => if seenId allFs (xidOf hp t) t then [] else [t]
           | _ => []
         some (p ++ ps, n + 1)
   | _, _ => some ([], 0)
@@ -84,7 +86,7 @@ def featureSuccs (K : Consts) (ts : TypeSystem) (o : Opts) (hp : Heap) (allFs : 
         else .ok ([], 0)
       else
         match v with
-        | .ref t => if seenId allFs (xidOf hp t) then .ok ([], 0) else .ok ([t], 0)
+        | .ref t => if seenId allFs (xidOf hp t) t then .ok ([], 0) else .ok ([t], 0)
         | _ => .error .attributeError         -- "should point to a […] but the feature value is a […]"
 
 def featuresSuccs (K : Consts) (ts : TypeSystem) (o : Opts) (hp : Heap) (allFs : List (Int × Nat)) (fuel : Nat)
